@@ -12,7 +12,7 @@ TITLE = 'Extrema are raw-signal extremes of narrowband half-waves'
 RULE = ('Hypothesis: signal recipes (sines, asymmetric, sawtooth, gaussian trains, chirps, bursty, 1/f, white; '
         'quantised / integer-quantised / clipped / held / zeroed / DC / scaled / negated) and raw low-resolution integer '
         'arrays x fs x band x filter_kwargs (n_cycles | n_seconds | {} | None) x boundary x first_extrema in '
-        '{peak, trough, None} x pad. Oracle: (a) exact equality with an independent half-wave model (run-length '
+        '{peak, trough, None} x pad x raw dtype (float64, float32, int64, int16 saturating at both rails, uint16 with zeros). Oracle: (a) exact equality with an independent half-wave model (run-length '
         'encoding of the sign of the neurodsp-filtered padded signal, argmax/argmin of the raw window, first occurrence), '
         '(b) direct predicates on the returned indices (inside the window, >= all, strictly > all earlier, one per closed '
         'half-wave, boundary, first_extrema start kind and equal counts). Non-trivial: a reported extremum lies in an in-signal window with a tied '
@@ -38,11 +38,28 @@ def strategy_(draw, tier):
     sig = draw(gen.st_signal(band, n, tie_rich=draw(st.booleans())))
     bnd = draw(st.sampled_from([0, 0, 1, 2, 5, int(round(p_lo)), n // 5, n // 3]))
     return {'fs': fs, 'f_range': [f_lo, f_hi], 'sig': sig, 'fk': fk, 'boundary': bnd,
-            'first': draw(st.sampled_from(['peak', 'trough', None])), 'pad': draw(st.sampled_from([True, True, False]))}
+            'first': draw(st.sampled_from(['peak', 'trough', None])), 'pad': draw(st.sampled_from([True, True, False])),
+            'dtype': draw(st.sampled_from(['float64'] * 5 + ['float32', 'int64', 'int16-rails', 'uint16']))}
+
+
+def cast(x, kind):
+    """find_extrema only orders raw samples inside windows, so any real dtype is a legitimate input here; the reference
+    works on the float64 image of the same values (exact for all of these dtypes)"""
+    x = np.asarray(x, dtype=float)
+    if kind == 'float32':
+        return x.astype(np.float32)
+    if kind == 'int64':
+        return np.round(x * 8).astype(np.int64)
+    span = max(float(np.max(np.abs(x))), 1e-12)
+    if kind == 'int16-rails':          # ADC counts that saturate at both rails (-32768 and 32767)
+        return np.clip(np.round(x / span * 40000), -32768, 32767).astype(np.int16)
+    if kind == 'uint16':               # offset binary bottoming out at 0
+        return np.clip(np.round(x / span * 40000 + 30000), 0, 65535).astype(np.uint16)
+    return x
 
 
 def check(case, rec):
-    x = gen.render_signal(case['sig'])
+    x = cast(gen.render_signal(case['sig']), case.get('dtype', 'float64'))
     n = len(x)
     fs, fr, fk, bnd, first, pad = case['fs'], tuple(case['f_range']), case['fk'], case['boundary'], case['first'], case['pad']
     # reference first: decides the domain
@@ -61,8 +78,12 @@ def check(case, rec):
     peaks, troughs = guarded(find_extrema, xin, fs, fr, **kwargs)
     peaks = np.asarray(peaks)
     troughs = np.asarray(troughs)
+    # the same call again with the same option objects (a caller sweeping channels reuses one filter_kwargs dict)
+    p2, t2 = guarded(find_extrema, xin, fs, fr, **kwargs)
+    if not (np.array_equal(peaks, p2) and np.array_equal(troughs, t2)):
+        raise Violation('second-call-differs', 'find_extrema called twice with the same filter_kwargs object %r gives different extrema' % (kwargs.get('filter_kwargs'),))
     rec.label(*gen.signal_classes(case['sig']))
-    rec.label('first:%s' % first, 'pad:%s' % pad, 'boundary:%s' % ('0' if bnd == 0 else '>0'),
+    rec.label('dtype:' + case.get('dtype', 'float64'), 'first:%s' % first, 'pad:%s' % pad, 'boundary:%s' % ('0' if bnd == 0 else '>0'),
               'filt:' + ('default' if not fk else ('n_seconds' if 'n_seconds' in fk else 'n_cycles')))
     for name, got in (('peaks', peaks), ('troughs', troughs)):
         if got.ndim != 1 or got.dtype.kind not in 'iu':
